@@ -65,6 +65,172 @@ def same_float(model_frac, impl_frac):
     return float(Fraction(model_frac)) == float(Fraction(impl_frac))
 
 
+# ----------------------------------------------------------------------------- numeric presentation
+# The same NUMBER handed over as another numeric TYPE (round 4). `float` in a signature is what callers read as "a
+# real number": np.cumsum / np.arange give np.float64 / np.int64, a feature pipeline float32, `tensor[i]` a 0-dim
+# tensor, a sample-accurate aligner Fractions. A case carries `num = {role: type name}`; a role that is absent is
+# handed over as the plain Python float / int every other stream uses. The value is always EXACTLY the case's
+# rational (integer types only hold integral values: a value with a fractional part goes in the float type of the
+# same family, which is the mixed column np.arange / tensor arithmetic produce), so model, spec and predicate are
+# untouched: the round trip must hold whatever type carries the number.
+NUM_TYPES = ("int", "float", "np.float64", "np.float32", "np.int64", "np.int32", "np.0d", "torch.float64",
+             "torch.float32", "torch.int64", "Fraction", "Decimal")
+_NUM_INT_FALLBACK = {"int": "float", "np.int64": "np.float64", "np.int32": "np.float64", "torch.int64": "torch.float64"}
+# str() / format(x, "") of these prints what repr(float) prints (for the values the numeric stream generates)
+NUM_TEXT_AS_FLOAT = {None, "float", "np.float64", "np.float32", "np.0d", "torch.float64", "torch.float32"}
+# The domain: (role, type) pairs the UNMODIFIED tree takes and round-trips (established by `numeric_sweep`, which is
+# re-run and recorded in the evidence on every run; a pair in this table that stops working is a failure, a pair
+# outside it is recorded and not judged). Outside: Fraction times in a ctm (printed "1/4", which no ctm reader
+# parses), float-typed `precision` / `tier_id` (format spec / list index), 0-dim tensors wherever `np.isreal` looks
+# at the element (write_trn, transcript_to_token), np.float32 / Decimal / tensor frame times (assignment into the
+# long tensor is refused), a Decimal frame shift (`float * Decimal` is a TypeError that the `except TypeError` around
+# the time conversion swallows: the seconds land in the tensor unconverted - recorded as "differs"), ids that are not
+# integers by type (an id is an integer by meaning; 5.0 happens to be taken).
+_INTS = ("int", "np.int64", "np.int32", "torch.int64")
+NUM_DOMAIN = {
+    "ctm.time": tuple(t for t in NUM_TYPES if t != "Fraction"),
+    "textgrid.time": NUM_TYPES,
+    "textgrid.precision": _INTS,
+    "textgrid.tier_id": _INTS,
+    "trn.time": tuple(t for t in NUM_TYPES if not t.startswith("torch.")),
+    "trn.workers": ("int", "np.int64", "np.int32"),
+    "frames.time": ("int", "float", "np.float64", "np.int64", "np.int32", "np.0d", "Fraction"),
+    "frames.shift": ("int", "float", "np.float64", "np.int64", "np.int32", "np.0d", "torch.float64", "torch.float32",
+                     "torch.int64", "Fraction"),
+    "frames.id": _INTS,
+}
+
+
+def present(x, kind):
+    """the exact rational `x` as a value of the numeric type `kind`"""
+    x = Fraction(x)
+    if kind is None:
+        return float(x)          # every other stream: the nearest double
+    if kind in _NUM_INT_FALLBACK and x.denominator != 1:
+        kind = _NUM_INT_FALLBACK[kind]
+    if kind == "int":
+        return int(x)
+    if kind == "float":
+        v = float(x)
+    elif kind == "Fraction":
+        return x
+    elif kind == "Decimal":
+        import decimal
+        v = decimal.Decimal(x.numerator) / decimal.Decimal(x.denominator)
+    elif kind.startswith("np."):
+        import numpy as np
+        if kind == "np.0d":
+            v = np.array(float(x))
+        elif kind in ("np.int64", "np.int32"):
+            return getattr(np, kind[3:])(int(x))
+        else:
+            v = getattr(np, kind[3:])(float(x))
+    elif kind.startswith("torch."):
+        import torch
+        if kind == "torch.int64":
+            return torch.tensor(int(x), dtype=torch.int64)
+        v = torch.tensor(float(x), dtype=getattr(torch, kind[6:]))
+    else:
+        raise ValueError(kind)
+    if Fraction(str(v)) != x if kind == "Decimal" else Fraction(float(v)) != x:
+        raise RuntimeError(f"generator: {x} is not exactly representable as {kind}")
+    return v
+
+
+def num_of(case, role):
+    return (case.get("num") or {}).get(role)
+
+
+def numeric_sweep():
+    """Every (role, numeric type) on one small fixed input against the real code: 'ok' (accepted and the round trip
+    holds), 'raises <Error>' or 'differs: ...'. Recorded in the evidence; judged only inside NUM_DOMAIN."""
+    d = data()
+    base = [("a", Fraction(1, 4), Fraction(1)), ("b", Fraction(1), Fraction(1)), ("c", Fraction(2), Fraction(7, 2))]
+    as_f = [(tok, float(s), float(e)) for tok, s, e in base]
+
+    def timed(kind):
+        return [(tok, present(s, kind), present(e, kind)) for tok, s, e in base]
+
+    def floats(tr):
+        return [(tok, float(s), float(e)) for tok, s, e in tr]
+
+    def ctm_time(kind):
+        f = io.StringIO()
+        d.write_ctm([("u", timed(kind))], f)
+        got = d.read_ctm(io.StringIO(f.getvalue()))
+        return got == [("u", as_f)] or f"wrote {f.getvalue()!r} read {got!r}"
+
+    def tg_time(kind):
+        f = io.StringIO()
+        d.write_textgrid(timed(kind), f, start_time=present(0, kind), end_time=present(4, kind))
+        got = d.read_textgrid(io.StringIO(f.getvalue()), 0, "sil")
+        # (gaps are filled from the tier's own bounds, min start / max end, not from the recording's)
+        want = (as_f[:2] + [("sil", 1.0, 2.0), as_f[2]], 0.25, 3.5)
+        head = f.getvalue().split("\n")[2:4]
+        return (got == want and head == ["0.000", "4.000"]) or f"header {head} read {got!r}"
+
+    def tg_precision(kind):
+        f, g = io.StringIO(), io.StringIO()
+        d.write_textgrid(as_f, f, precision=present(2, kind))
+        d.write_textgrid(as_f, g, precision=2)
+        return f.getvalue() == g.getvalue() or f"wrote {f.getvalue().split(chr(10))[2:4]}"
+
+    def tg_tier_id(kind):
+        f = io.StringIO()
+        d.write_textgrid(as_f, f)
+        got = [d.read_textgrid(io.StringIO(f.getvalue()), present(i, kind))[0] for i in (0, -1)]
+        return got == [as_f, as_f] or f"read {got!r}"
+
+    def trn_time(kind):
+        f = io.StringIO()
+        d.write_trn([("u", timed(kind))], f)
+        return f.getvalue() == "a b c (u)\n" or f"wrote {f.getvalue()!r}"
+
+    def trn_workers(kind):
+        with fake_pool() as fp:
+            got = d.read_trn(io.StringIO("a (u)\nb (v)\n"), False, present(2, kind), present(3, kind))
+            calls = [(int(c["processes"]), int(c["chunksize"])) for c in fp.calls]
+            got0 = d.read_trn(io.StringIO("a (u)\nb (v)\n"), False, present(0, kind), present(3, kind))
+            ncalls = len(fp.calls)
+        want = [("u", ["a"]), ("v", ["b"])]
+        return (got == want and got0 == want and calls == [(2, 3)] and ncalls == 1) or f"read {got!r} {got0!r} pool {calls}"
+
+    rows = [[5, 25, 100], [5, 100, 100], [5, 200, 350]]
+
+    def fr_time(kind):
+        tok = d.transcript_to_token([(5, s, e) for _, s, e in timed(kind)], None, 10.0)
+        back = floats(d.token_to_transcript(tok, None, 10.0))
+        return (tok.tolist() == rows and back == [(5, s, e) for _, s, e in as_f]) or f"rows {tok.tolist()} back {back}"
+
+    def fr_shift(kind):
+        sh = present(10, kind)
+        tok = d.transcript_to_token([(5, s, e) for _, s, e in as_f], None, sh)
+        back = floats(d.token_to_transcript(tok, None, sh))
+        return (tok.tolist() == rows and back == [(5, s, e) for _, s, e in as_f]) or f"rows {tok.tolist()} back {back}"
+
+    def fr_id(kind):
+        tok = d.transcript_to_token([present(5, kind), (present(7, kind), 1.0, 2.0)], None, 10.0)
+        tok2 = d.transcript_to_token(["zz", "oov", ("zz", 1.0, 2.0)], {"zz": present(3, kind)}, 10.0, present(9, kind))
+        got = tok.tolist() + tok2.tolist()
+        want = [[5, -1, -1], [7, 100, 200], [3, -1, -1], [9, -1, -1], [3, 100, 200]]
+        return got == want or f"rows {got}"
+    roles = {"ctm.time": ctm_time, "textgrid.time": tg_time, "textgrid.precision": tg_precision,
+             "textgrid.tier_id": tg_tier_id, "trn.time": trn_time, "trn.workers": trn_workers,
+             "frames.time": fr_time, "frames.shift": fr_shift, "frames.id": fr_id}
+    table = {}
+    for role, fn in roles.items():
+        table[role] = {}
+        for kind in NUM_TYPES:
+            try:
+                with warnings.catch_warnings():
+                    warnings.simplefilter("ignore")
+                    r = fn(kind)
+                table[role][kind] = "ok" if r is True else "differs: " + str(r)[:160]
+            except Exception as e:
+                table[role][kind] = "raises " + type(e).__name__
+    return table
+
+
 # ----------------------------------------------------------------------------- trn helpers
 def py_item(x):
     """JSON item -> what read_trn produces *inside* an alternate (nested lists)."""
@@ -73,11 +239,11 @@ def py_item(x):
     return [[py_item(y) for y in b] for b in x]
 
 
-def py_top(x, bare=False):
+def py_top(x, bare=False, kind=None):
     """bare: a top-level alternate handed to write_trn as the list itself ("x could be the token or a
     list of alternates") instead of the `(alts, -1, -1)` wrapping read_trn produces."""
     if isinstance(x, dict):
-        return (x["tok"], fl(x["s"]), fl(x["e"]))
+        return (x["tok"], present(x["s"], kind), present(x["e"], kind))
     if isinstance(x, str):
         return x
     return py_item(x) if bare else (py_item(x), -1, -1)
@@ -341,9 +507,9 @@ def gen_item(rng, depth, in_alt):
     return gen_tok(rng, in_alt)
 
 
-def gen_top(rng, depth):
+def gen_top(rng, depth, timed=0.15):
     x = gen_item(rng, depth, False)
-    if isinstance(x, str) and rng.random() < 0.15:
+    if isinstance(x, str) and rng.random() < timed:
         s = 0 if rng.random() < 0.2 else rng.randrange(0, 64 * 20)
         if rng.random() < 0.2:
             return {"tok": x, "s": frac_str(Fraction(s, 64)), "e": frac_str(Fraction(s, 64))}
@@ -510,9 +676,26 @@ def gen_tg_doc(rng):
     ntier = rng.choice([1, 2, 2, 3, 3, 4])
     names = [rng.choice(["words", "phones", "pts", "a", "b", "my tier", "1", "é", "", "0"]) for _ in range(ntier)]
     tiers = []
+    # 40 %: a file whose times are whole numbers of its last printed digit (precision 0..9), with unlabelled stretches
+    # of 0, 1, 2, 3, 10 ... units before the first entry, between entries and after the last one
+    ulp_p = rng.choice([0, 2, 3, 4, 4, 5, 5, 6, 7, 8, 9]) if rng.random() < 0.4 else None
     for name in names:
         point = rng.random() < 0.35
         n = rng.choice([0, 1, 2, 3, 5])
+        if ulp_p is not None:
+            unit = Fraction(1, 10 ** ulp_p)
+            k = rng.choice([0, rng.randrange(0, 50), rng.randrange(0, 10 ** min(ulp_p + 1, 6))])
+            tmin = k * unit
+            ents = []
+            for _ in range(n):
+                k += rng.choice(ULP_STEPS + [rng.randrange(1, 400)])
+                ln = 0 if point else rng.choice(ULP_STEPS[2:] + [rng.randrange(1, 400)])
+                ents.append([rng.choice(TG_DOC_TOKS), frac_str(k * unit), frac_str((k + ln) * unit)])
+                k += ln
+            k += rng.choice(ULP_STEPS)
+            tiers.append({"name": name, "point": point, "tmin": frac_str(tmin), "tmax": frac_str(k * unit),
+                          "entries": ents})
+            continue
         cur = grid_time(rng, 0, rng.choice([2, 9, 12]))
         tmin = cur - (Fraction(rng.randrange(0, 64), 64) if rng.random() < 0.4 else 0)
         tmin = max(tmin, Fraction(0))
@@ -541,8 +724,13 @@ def gen_tg_doc(rng):
         tier_id = rng.choice(names)
     else:
         tier_id = "no such tier"
-    return {"kind": "tg_doc", "tiers": tiers, "precision": rng.randint(0, 6), "layout": rng.choice(["long", "short"]),
+    case = {"kind": "tg_doc", "tiers": tiers, "precision": rng.randint(0, 6) if ulp_p is None else ulp_p,
+            "layout": rng.choice(["long", "short"]),
             "blank_line": rng.random() < 0.7, "tier_id": tier_id, "fill": rng.choice(TG_FILLS)}
+    if ulp_p is not None:
+        case["style"] = "ulp"
+        case["fill"] = rng.choice(TG_FILLS + ["sil", ""])
+    return case
 
 
 TG_NAMES = ["transcript", "my tier", "", "words", "1", 'a"b', "é 日本", "IntervalTier", '"']
@@ -577,8 +765,11 @@ def gen_tg_transcript(rng, style):
         cur = Fraction(0) if rng.random() < 0.15 else fine_time(rng, hi)
         t = []
         for _ in range(n):
-            if rng.random() < 0.6:
+            r = rng.random()
+            if r < 0.3:
                 cur += Fraction(rng.randrange(1, 128), 64)
+            elif r < 0.75:
+                cur += fine_dur(rng)       # an unlabelled stretch of less than a millisecond
             e = cur if some_points and rng.random() < 0.5 else cur + fine_dur(rng)
             t.append([rng.choice(TOK_TG), frac_str(cur), frac_str(e)])
             cur = e
@@ -607,15 +798,20 @@ def gen_textgrid(rng, style=None):
             "fill": rng.choice(TG_FILLS), "tier_id": 0}
     if fine:
         case["style"] = "fine"
-        case["precision"] = rng.choice([3, 4, 4, 5, 5, 6, 6, 7, 9])
+        case["precision"] = rng.choice([3, 4, 4, 5, 5, 6, 6, 7, 8, 9])
         case["point_tier"] = rng.choice([None, None, None, False])
+        case["fill"] = rng.choice(TG_FILLS + ["sil", ""])
     r = rng.random()
-    if r < 0.25:
+    if fine and r < 0.35:        # the recording starts / ends less than a millisecond before / after the entries
+        case["start_time"] = frac_str(max(Fraction(0), min(starts) - fine_dur(rng)))
+    elif r < 0.25:
         case["start_time"] = frac_str(max(Fraction(0), min(starts) - Fraction(rng.randrange(0, 64), 64)))
     elif r < 0.3:
         case["start_time"] = frac_str(min(starts) + Fraction(1, 64))      # ValueError
     r = rng.random()
-    if r < 0.25:
+    if fine and r < 0.35:
+        case["end_time"] = frac_str(max(ends) + fine_dur(rng))
+    elif r < 0.25:
         case["end_time"] = frac_str(max(ends) + Fraction(rng.randrange(0, 64), 64))
     elif r < 0.3:
         case["end_time"] = frac_str(max(ends) - Fraction(1, 64))           # ValueError
@@ -631,6 +827,49 @@ def gen_textgrid(rng, style=None):
                      "end_time": None, "use_defaults": True})
         if isinstance(case["tier_id"], str) and case["tier_id"] != "no such tier":
             case["tier_id"] = "transcript"
+    return case
+
+
+ULP_STEPS = [0, 0, 1, 1, 1, 2, 3, 10]
+
+
+def gen_textgrid_ulp(rng):
+    """Everything in units of the LAST PRINTED DIGIT: at precision p every boundary is a whole number of 10^-p s
+    (some moved off the grid by a quarter / four tenths of a unit - never a rounding tie), segments and unlabelled
+    stretches 0, 1, 2, 3, 10 or many units long, in front of the first entry (the tier's own start is the minimum
+    start, so only the file header moves), between entries and behind the last one. What the file can tell apart at
+    its precision must be told apart (a fill interval exactly where prev_end < next_start in the file) whatever the
+    precision: one unit is 1 s at precision 0 and 1 ns at precision 9."""
+    p = rng.choice([0, 1, 2, 3, 4, 4, 5, 5, 6, 6, 7, 8, 9])
+    unit = Fraction(1, 10 ** p)
+    jitter = rng.random() < 0.3
+    off = lambda: rng.choice([0, 0, Fraction(1, 4), Fraction(-1, 4), Fraction(2, 5), Fraction(-2, 5)]) if jitter else 0
+    n = rng.choice([1, 2, 3, 4, 6])
+    k = rng.choice([0, 0, rng.randrange(0, 50), rng.randrange(0, 10 ** min(p + 1, 6))])
+    t = []
+    for j in range(n):
+        k += rng.choice(ULP_STEPS + [rng.randrange(1, 400)])
+        ln = rng.choice(ULP_STEPS + [rng.randrange(1, 400)])
+        a = max(Fraction(0), (k + off()) * unit)
+        b = max(a, (k + ln + off()) * unit)
+        t.append([rng.choice(TOK_TG), frac_str(a), frac_str(b)])
+        k += ln
+    if rng.random() < 0.2:
+        rng.shuffle(t)
+    starts = [Fraction(x[1]) for x in t]
+    ends = [Fraction(x[2]) for x in t]
+    case = {"kind": "textgrid", "t": t, "style": "ulp", "precision": p,
+            "point_tier": rng.choice([None, None, None, False]), "tier_name": rng.choice(TG_NAMES),
+            "start_time": None, "end_time": None, "fill": rng.choice(TG_FILLS + ["sil", ""]), "tier_id": 0}
+    if rng.random() < 0.4:
+        case["start_time"] = frac_str(max(Fraction(0), min(starts) - rng.choice(ULP_STEPS) * unit))
+    if rng.random() < 0.4:
+        case["end_time"] = frac_str(max(ends) + rng.choice(ULP_STEPS) * unit)
+    r = rng.random()
+    if r < 0.3:
+        case["tier_id"] = case["tier_name"]
+    elif r < 0.4:
+        case["tier_id"] = -1
     return case
 
 
@@ -675,6 +914,174 @@ def gen_textgrid_falsy(rng):
     return case
 
 
+def gen_trn_case(rng, max_depth, timed=0.15):
+    depth = rng.randint(0, max_depth)
+    nutt = rng.choice([0, 1, 1, 2, 3, 5])
+    utts = [{"utt": rng.choice(UTTS), "t": [gen_top(rng, depth, timed) for _ in range(rng.randint(0, 5))]}
+            for _ in range(nutt)]
+    return {"kind": "trn", "utts": utts, "chunk": rng.choice([1, 2, 1000]), "processes": rng.choice([1, 3]),
+            "warn": rng.random() < 0.3, "bare": rng.random() < 0.4,
+            "iterable": rng.choice(["list", "list", "gen", "tuple"])}
+
+
+def gen_ctm_case(rng, wfns, chans):
+    nutt = rng.choice([1, 2, 3, 4])
+    utt_ids = rng.sample(["u1", "u2", "u10", "u9", "x", "y", "é", "3", "日本", "{u}", 'u"'], nutt)
+    ts = [[u, gen_timed(rng, rng.choice([0, 1, 2, 3, 5]), hi=rng.choice([5, 30]))] for u in utt_ids]
+    mode = rng.choice(["chan", "dict", "dict", "default"])
+    case = {"kind": "ctm", "ts": ts, "map_type": rng.choice(MAP_TYPES)}
+    if mode == "dict":
+        if rng.random() < 0.4:      # one recording, one channel per utterance (two sides of a call)
+            w0 = rng.choice(wfns)
+            pairs = [(w0, c) for c in rng.sample(chans, nutt)]
+        else:
+            pairs = rng.sample([(w, c) for w in wfns for c in chans], nutt)
+        case["utt2wc"] = [[u, w, c] for u, (w, c) in zip(utt_ids, pairs)]
+        case["wc2utt"] = [[w, c, u] for u, (w, c) in zip(utt_ids, pairs)]
+    elif mode == "chan":
+        case["utt2wc"] = rng.choice(chans)
+        case["wc2utt"] = None if rng.random() < 0.5 else [[u, case["utt2wc"], u] for u in utt_ids]
+    else:
+        case["utt2wc"] = None       # library default channel
+        case["wc2utt"] = None
+    return case
+
+
+def gen_frames_case(rng, shifts):
+    n = rng.randint(0, 6)
+    vocab = rng.sample(TOK_ANY + ["", ""], rng.randint(1, 8))     # "" is a legal dictionary key / token
+    vocab = list(dict.fromkeys(vocab))
+    ids = rng.sample(range(-3, 40), len(vocab))
+    if 0 not in ids and rng.random() < 0.3:
+        ids[rng.randrange(len(ids))] = 0                          # id 0
+    use_map = rng.random() < 0.8
+    empty_map = use_map and rng.random() < 0.08                   # token2id = {} is a mapping without entries
+    if empty_map:
+        vocab, ids = [], []
+    t = []
+    for _ in range(n):
+        tok = rng.choice(vocab) if vocab and use_map else rng.randrange(0, 50)
+        if rng.random() < 0.3:
+            t.append(tok)
+        else:
+            s = Fraction(0) if rng.random() < 0.08 else grid_time(rng, 0, rng.choice([1, 12, 30]))
+            r = rng.random()
+            e = s if r < 0.2 else s + Fraction(rng.randrange(1, 8 if r < 0.5 else 200), 64)
+            t.append([tok, frac_str(s), frac_str(e)])
+    case = {"kind": "frames", "t": t, "f": rng.choice(shifts), "unk": None, "skip": False}
+    if Fraction(case["f"]).denominator == 1 and rng.random() < 0.3:
+        case["f_int"] = True       # frame_shift_ms given as an int
+    if use_map:
+        case["token2id"] = [[v, k] for v, k in zip(vocab, ids)]
+        case["id2token"] = [[k, v] for v, k in zip(vocab, ids)]
+        r = rng.random()
+        if empty_map:      # every token is out of vocabulary: the unk id if there is one, else itself
+            case["unk"] = rng.choice([None, 0, 0, 77])
+        elif r < 0.3:      # out-of-vocabulary tokens with an unk (0 is an id like any other)
+            oov = rng.choice(["OOV", "zzz", ""] if "" not in vocab else ["OOV", "zzz"])
+            if t:
+                j = rng.randrange(len(t))
+                t[j] = oov if not isinstance(t[j], list) else [oov] + t[j][1:]
+            case["unk"] = rng.choice([vocab[0], 77, "nokey", 0, 0] + ([""] if "" in vocab else []))
+    else:
+        case["token2id"] = None
+        case["id2token"] = None
+        if rng.random() < 0.3:     # "If token2id is None, unk has no effect"
+            case["unk"] = rng.choice([77, "nokey", 0, ""])
+    if rng.random() < 0.12:  # frame times already given (no frame shift)
+        case["f"] = None
+        t2 = []
+        for x in t:
+            if isinstance(x, list):
+                a = 0 if rng.random() < 0.2 else rng.randrange(0, 500)      # frame 0 is a frame
+                t2.append([x[0], str(a), str(a + rng.randrange(0, 50))])
+            else:
+                t2.append(x)
+        case["t"] = t2
+    return case
+
+
+def snap_times(case, unit):
+    """Every time of the case moved down to the grid of `unit` seconds (a monotone map: start <= end, the order of the
+    entries and the admissibility of start_time / end_time are kept). Whole seconds are what the integer types
+    hold; on the 1/16 s grid below 100 s a time has <= 6 significant digits, so that str(np.float32) prints the
+    exact value like repr(float) does."""
+    unit = Fraction(unit)
+
+    def f(x):
+        x = Fraction(x)
+        return frac_str((x / unit).__floor__() * unit) if x >= 0 else frac_str(x)
+    k = case["kind"]
+    if k == "ctm":
+        case["ts"] = [[u, [[tok, f(a), f(b)] for tok, a, b in t]] for u, t in case["ts"]]
+    elif k == "textgrid":
+        case["t"] = [[tok, f(a), f(b)] for tok, a, b in case["t"]]
+        for key in ("start_time", "end_time"):
+            if case[key] is not None:
+                case[key] = f(case[key])
+    elif k == "frames":
+        case["t"] = [x if not isinstance(x, list) else [x[0], f(x[1]), f(x[2])] for x in case["t"]]
+    elif k == "trn":
+        for u in case["utts"]:
+            u["t"] = [dict(x, s=f(x["s"]), e=f(x["e"])) if isinstance(x, dict) else x for x in u["t"]]
+    return case
+
+
+def gen_numeric(rng, wfns, chans, shifts):
+    """A case of one of the kinds with its numbers handed over as other numeric types (`num`), each role's type drawn
+    from NUM_DOMAIN - what the unmodified tree accepts."""
+    kind = rng.choice(["ctm", "ctm", "ctm", "textgrid", "textgrid", "textgrid", "frames", "frames", "frames", "trn",
+                       "tg_doc"])
+    pick = lambda role: rng.choice(NUM_DOMAIN[role])
+    if kind == "ctm":
+        case = gen_ctm_case(rng, wfns, chans)
+        num = {"time": pick("ctm.time")}
+        snap_times(case, 1 if rng.random() < 0.4 else Fraction(1, 16))
+    elif kind == "textgrid":
+        case = gen_textgrid(rng, style=rng.choice(["chain", "gaps", "gaps", "points", "free", "from_zero"]))
+        num = {}
+        for role in ("time", "precision", "tier_id"):
+            if rng.random() < 0.7:
+                num[role] = pick("textgrid." + role)
+        if not num:
+            num["time"] = pick("textgrid.time")
+        if num.get("time") in _INTS and rng.random() < 0.7:
+            snap_times(case, 1)
+    elif kind == "frames":
+        case = gen_frames_case(rng, shifts)
+        # the time conversion combines time and frame shift arithmetically: one of the two by another type (that is
+        # what the sweep establishes as accepted), ids - which take no part in it - independently
+        role = rng.choice(["time", "time", "shift"])
+        num = {role: pick("frames." + role)}
+        if rng.random() < 0.6:
+            num["id"] = pick("frames.id")
+        if case["f"] is None:
+            # frame indices instead of seconds: integers, so only by the integer types
+            num.pop("shift", None)
+            if "time" in num:
+                num["time"] = rng.choice([k_ for k_ in NUM_DOMAIN["frames.time"] if k_ in _INTS])
+        elif num.get("time") in _INTS and rng.random() < 0.7:
+            snap_times(case, 1)
+        if num.get("shift") in _INTS and Fraction(case["f"]).denominator != 1:
+            case["f"] = rng.choice([x for x in shifts if Fraction(x).denominator == 1])
+        case.pop("f_int", None)
+    elif kind == "trn":
+        case = gen_trn_case(rng, 2, timed=0.6)
+        num = {"time": pick("trn.time")}
+        if rng.random() < 0.6:
+            num["workers"] = pick("trn.workers")
+        if num["time"] in _INTS and rng.random() < 0.7:
+            snap_times(case, 1)
+    else:
+        case = gen_tg_doc(rng)
+        if isinstance(case["tier_id"], str):
+            case["tier_id"] = rng.randrange(-len(case["tiers"]), len(case["tiers"]))
+        num = {"tier_id": pick("textgrid.tier_id")}
+    case["num"] = num
+    case["stream"] = "numeric"
+    return case
+
+
 class C11(PropertyCheck):
     pid = "C11"
     rule = ("generated transcript trees (depth <= 4 quick, <= 6 thorough; ids with spaces, number-like tokens, "
@@ -694,7 +1101,14 @@ class C11(PropertyCheck):
             "falsy legal value next to None / omitted (start_time / end_time 0.0, precision 0, tier_name '', "
             "point_tier False, fill_token '', tier_id 0 / '', empty utt2wc / wc2utt / token2id, unk 0 / '', token '', "
             "id 0, time 0.0, frame 0, processes 0), omitted options really left out of the call; TextGrid segments "
-            "between 1 us and 1 ms (dyadic) at precisions 3..9 with point_tier unset. non-trivial: >= 1 alternate, >= 2 utterances, "
+            "between 1 us and 1 ms (dyadic) at precisions 3..9 with point_tier unset, with gaps between 1 us and 1 ms "
+            "between them; TextGrid boundaries / segments / gaps of 0, 1, 2, 3, 10, ... units of the last printed digit "
+            "at precisions 0..9 (written by write_textgrid, and in harness-serialised files also before the first and "
+            "after the last entry of a tier); sample-accurate ctm times (2^-14 s starts, durations down to 2^-20 s); "
+            "every numeric argument (times, start_time / end_time, precision, tier_id, frame shift, token ids, unk, "
+            "processes / chunk_size) as Python int, np.float64 / float32 / int64 / int32 scalars, 0-dim arrays, 0-dim "
+            "torch tensors, Fraction, Decimal - each (role, type) the unmodified tree accepts, exact values (whole "
+            "seconds / the 1/16 s grid). non-trivial: >= 1 alternate, >= 2 utterances, "
             ">= 2 timed tokens, >= 2 records or >= 2 tiers; distinct by the case")
     assumptions = [
         "Python text I/O, str.split/strip, float repr/parse (shortest round-trip) and '%.{p}f' formatting are "
@@ -737,13 +1151,7 @@ class C11(PropertyCheck):
         # --- trn trees
         n_trn = 150 if not big else 1500
         for i in range(n_trn):
-            depth = rng.randint(0, 4 if not big else 6)
-            nutt = rng.choice([0, 1, 1, 2, 3, 5])
-            utts = [{"utt": rng.choice(UTTS), "t": [gen_top(rng, depth) for _ in range(rng.randint(0, 5))]}
-                    for _ in range(nutt)]
-            yield {"kind": "trn", "utts": utts, "chunk": rng.choice([1, 2, 1000]), "processes": rng.choice([1, 3]),
-                   "warn": rng.random() < 0.3, "bare": rng.random() < 0.4,
-                   "iterable": rng.choice(["list", "list", "gen", "tuple"])}
+            yield gen_trn_case(rng, 4 if not big else 6)
         # chunk_size=0: ignored without workers, refused by Pool.imap (ValueError) with workers - also for an
         # empty file and for a file whose first line is malformed (the pool refuses before any line is parsed)
         for utts in ([], [{"utt": "u", "t": ["a", [["b"], ["c"]]]}, {"utt": "v", "t": []}],
@@ -778,26 +1186,7 @@ class C11(PropertyCheck):
         wfns = ["940328", "sw 1".replace(" ", "_"), "a", "b", "10", "9", "A", "é", "日本", '"w"', "(w)"]
         chans = ["A", "B", "1", "2", "é", ";"]
         for i in range(n_ctm):
-            nutt = rng.choice([1, 2, 3, 4])
-            utt_ids = rng.sample(["u1", "u2", "u10", "u9", "x", "y", "é", "3", "日本", "{u}", 'u"'], nutt)
-            ts = [[u, gen_timed(rng, rng.choice([0, 1, 2, 3, 5]), hi=rng.choice([5, 30]))] for u in utt_ids]
-            mode = rng.choice(["chan", "dict", "dict", "default"])
-            case = {"kind": "ctm", "ts": ts, "map_type": rng.choice(MAP_TYPES)}
-            if mode == "dict":
-                if rng.random() < 0.4:      # one recording, one channel per utterance (two sides of a call)
-                    w0 = rng.choice(wfns)
-                    pairs = [(w0, c) for c in rng.sample(chans, nutt)]
-                else:
-                    pairs = rng.sample([(w, c) for w in wfns for c in chans], nutt)
-                case["utt2wc"] = [[u, w, c] for u, (w, c) in zip(utt_ids, pairs)]
-                case["wc2utt"] = [[w, c, u] for u, (w, c) in zip(utt_ids, pairs)]
-            elif mode == "chan":
-                case["utt2wc"] = rng.choice(chans)
-                case["wc2utt"] = None if rng.random() < 0.5 else [[u, case["utt2wc"], u] for u in utt_ids]
-            else:
-                case["utt2wc"] = None       # library default channel
-                case["wc2utt"] = None
-            yield case
+            yield gen_ctm_case(rng, wfns, chans)
         for i in range(40 if not big else 200):  # malformed: negative times, end < start, missing key
             ts = [["u1", gen_timed(rng, 2)], ["u2", gen_timed(rng, 1)]]
             mode = rng.choice(["neg", "rev", "key", "key_read", "white", "comment", "empty"])
@@ -846,6 +1235,22 @@ class C11(PropertyCheck):
             yield {"kind": "ctm", "ts": ts, "map_type": rng.choice(MAP_TYPES), "stream": "empty_mapping",
                    "utt2wc": [] if which != "wc2utt" else rng.choice([None, "A", "0"]),
                    "wc2utt": [] if which != "utt2wc" else None}
+        # sample-accurate times: starts on the 2^-14 s grid, durations between 1 us and 1 ms (dyadic, so that start,
+        # duration and start + duration are exact in double and "read back exactly" is judged exactly); what a writer
+        # that prints a fixed number of decimals ('{:f}', '{:.3f}') loses
+        for i in range(40 if not big else 400):
+            ts = []
+            for u in rng.sample(["u1", "u2", "u3", "x"], rng.randint(1, 3)):
+                cur, tt = fine_time(rng, rng.choice([1, 9, 30])), []
+                for _ in range(rng.randint(1, 4)):
+                    if rng.random() < 0.5:
+                        cur += fine_dur(rng) if rng.random() < 0.5 else Fraction(rng.randrange(1, 128), 64)
+                    e = cur if rng.random() < 0.15 else cur + fine_dur(rng)
+                    tt.append([rng.choice(TOK_TIMED), frac_str(cur), frac_str(e)])
+                    cur = e
+                ts.append([u, tt])
+            yield {"kind": "ctm", "ts": ts, "utt2wc": rng.choice(["A", None]), "wc2utt": None, "stream": "fine",
+                   "map_type": "dict"}
         for i in range(10 if not big else 80):   # tolerance stream: arbitrary 3-decimal floats
             ts = []
             for u in rng.sample(["u1", "u2", "u3"], rng.randint(1, 3)):
@@ -869,6 +1274,9 @@ class C11(PropertyCheck):
         # inferred from them "within precision `precision`")
         for i in range(60 if not big else 600):
             yield gen_textgrid(rng, style="fine")
+        # boundaries, segments and gaps measured in units of the last printed digit, precision 0..9
+        for i in range(120 if not big else 1200):
+            yield gen_textgrid_ulp(rng)
         # every optional argument at: omitted / its falsy legal value / an ordinary value
         for i in range(90 if not big else 900):
             yield gen_textgrid_falsy(rng)
@@ -892,57 +1300,7 @@ class C11(PropertyCheck):
         shifts = ["10", "20", "25", "25/2", "1", "1/2", "5/2", "1/8", "8", "125/2"]
         n_fr = 200 if not big else 2000
         for i in range(n_fr):
-            n = rng.randint(0, 6)
-            vocab = rng.sample(TOK_ANY + ["", ""], rng.randint(1, 8))     # "" is a legal dictionary key / token
-            vocab = list(dict.fromkeys(vocab))
-            ids = rng.sample(range(-3, 40), len(vocab))
-            if 0 not in ids and rng.random() < 0.3:
-                ids[rng.randrange(len(ids))] = 0                          # id 0
-            use_map = rng.random() < 0.8
-            empty_map = use_map and rng.random() < 0.08                   # token2id = {} is a mapping without entries
-            if empty_map:
-                vocab, ids = [], []
-            t = []
-            for _ in range(n):
-                tok = rng.choice(vocab) if vocab and use_map else rng.randrange(0, 50)
-                if rng.random() < 0.3:
-                    t.append(tok)
-                else:
-                    s = Fraction(0) if rng.random() < 0.08 else grid_time(rng, 0, rng.choice([1, 12, 30]))
-                    r = rng.random()
-                    e = s if r < 0.2 else s + Fraction(rng.randrange(1, 8 if r < 0.5 else 200), 64)
-                    t.append([tok, frac_str(s), frac_str(e)])
-            case = {"kind": "frames", "t": t, "f": rng.choice(shifts), "unk": None, "skip": False}
-            if Fraction(case["f"]).denominator == 1 and rng.random() < 0.3:
-                case["f_int"] = True       # frame_shift_ms given as an int
-            if use_map:
-                case["token2id"] = [[v, k] for v, k in zip(vocab, ids)]
-                case["id2token"] = [[k, v] for v, k in zip(vocab, ids)]
-                r = rng.random()
-                if empty_map:      # every token is out of vocabulary: the unk id if there is one, else itself
-                    case["unk"] = rng.choice([None, 0, 0, 77])
-                elif r < 0.3:      # out-of-vocabulary tokens with an unk (0 is an id like any other)
-                    oov = rng.choice(["OOV", "zzz", ""] if "" not in vocab else ["OOV", "zzz"])
-                    if t:
-                        j = rng.randrange(len(t))
-                        t[j] = oov if not isinstance(t[j], list) else [oov] + t[j][1:]
-                    case["unk"] = rng.choice([vocab[0], 77, "nokey", 0, 0] + ([""] if "" in vocab else []))
-            else:
-                case["token2id"] = None
-                case["id2token"] = None
-                if rng.random() < 0.3:     # "If token2id is None, unk has no effect"
-                    case["unk"] = rng.choice([77, "nokey", 0, ""])
-            if rng.random() < 0.12:  # frame times already given (no frame shift)
-                case["f"] = None
-                t2 = []
-                for x in t:
-                    if isinstance(x, list):
-                        a = 0 if rng.random() < 0.2 else rng.randrange(0, 500)      # frame 0 is a frame
-                        t2.append([x[0], str(a), str(a + rng.randrange(0, 50))])
-                    else:
-                        t2.append(x)
-                case["t"] = t2
-            yield case
+            yield gen_frames_case(rng, shifts)
         for i in range(20 if not big else 100):    # malformed: a zero frame shift means "no frame shift", a
             n = rng.randint(1, 4)                   # negative one is not rejected (outside the quantifier)
             t = []
@@ -953,6 +1311,10 @@ class C11(PropertyCheck):
             yield {"kind": "frames", "t": t, "f": rng.choice(["0", "0", "-10", "-1/2", "-8"]), "unk": None,
                    "token2id": None, "id2token": None, "skip": False, "malformed": "shift",
                    "f_int": rng.random() < 0.5}
+        # --- the same numbers as other numeric types (np.float64 / float32 / int64 / int32 scalars, 0-dim arrays and
+        # tensors, Python ints, Fraction, Decimal) for every entry point with a numeric argument
+        for i in range(220 if not big else 2200):
+            yield gen_numeric(rng, wfns, chans, shifts)
         for i in range(10 if not big else 60):     # oracle-only: arbitrary frame shifts
             t = [[rng.randrange(0, 9), frac_str(round(rng.uniform(0, 20), 3)), None] for _ in range(4)]
             for x in t:
@@ -1001,7 +1363,9 @@ class C11(PropertyCheck):
     def impl_trn(self, case):
         d = data()
         bare = case.get("bare", False)
-        tr_list = [(u["utt"], [py_top(x, bare) for x in u["t"]]) for u in case["utts"]]
+        tr_list = [(u["utt"], [py_top(x, bare, num_of(case, "time")) for x in u["t"]]) for u in case["utts"]]
+        wk = num_of(case, "workers")          # processes / chunk_size as np.int64 ... (an int by another type)
+        n_proc, n_chunk, n_zero = (present(v, wk or "int") for v in (case["processes"], case["chunk"], 0))
 
         def transcripts():         # write_trn takes any iterable of pairs
             kind = case.get("iterable", "list")
@@ -1033,21 +1397,21 @@ class C11(PropertyCheck):
         # processes=0 spelled out (positionally and by keyword) is the default: no pool at all
         with fake_pool() as fp:
             try:
-                r0 = [canon_trn(d.read_trn(path, False, 0, case["chunk"])),
-                      canon_trn(d.read_trn(trn=path, warn=False, processes=0))]
+                r0 = [canon_trn(d.read_trn(path, False, n_zero, n_chunk)),
+                      canon_trn(d.read_trn(trn=path, warn=False, processes=n_zero))]
                 obs["processes0_same"] = all(x == obs.get("read") for x in r0) and not fp.calls
             except OSError:
                 obs["processes0_same"] = "error" in rf and not fp.calls
         # the multi-process branch with the pool replaced by an in-process ordered imap
         with fake_pool() as fp:
             try:
-                r = d.read_trn(path, False, case["processes"], case["chunk"])
+                r = d.read_trn(path, False, n_proc, n_chunk)
                 obs["pool"] = canon_trn(r)
             except OSError:
                 obs["pool"] = {"error": "OSError"}
             except ValueError:
                 obs["pool"] = {"error": "ValueError"}
-            obs["pool_calls"] = list(fp.calls)
+            obs["pool_calls"] = [{k_: int(v_) for k_, v_ in c_.items()} for c_ in fp.calls]
         # read_trn_iter is the same thing, lazily
         try:
             with open(path) as f:
@@ -1057,7 +1421,7 @@ class C11(PropertyCheck):
         # ... also through a path with workers
         with fake_pool() as fp:
             try:
-                obs["iter_pool_same"] = canon_trn(list(d.read_trn_iter(path, False, case["processes"], case["chunk"]))) \
+                obs["iter_pool_same"] = canon_trn(list(d.read_trn_iter(path, False, n_proc, n_chunk))) \
                     == obs["pool"]
             except OSError:
                 obs["iter_pool_same"] = obs["pool"] == {"error": "OSError"}
@@ -1070,7 +1434,8 @@ class C11(PropertyCheck):
 
     def impl_ctm(self, case):
         d = data()
-        ts = [(u, [(tok, fl(s), fl(e)) for tok, s, e in t]) for u, t in case["ts"]]
+        tk = num_of(case, "time")
+        ts = [(u, [(tok, present(s, tk), present(e, tk)) for tok, s, e in t]) for u, t in case["ts"]]
         u2w = case.get("utt2wc")
         kw = {}
         mt = case.get("map_type")
@@ -1142,9 +1507,12 @@ class C11(PropertyCheck):
         with open(path, "w") as f:
             f.write(text)
 
+        tier_id = case["tier_id"] if isinstance(case["tier_id"], str) else \
+            present(case["tier_id"], num_of(case, "tier_id") or "int")
+
         def rd(fill):
             def go(src):
-                tr, a, b = d.read_textgrid(src, case["tier_id"], fill)
+                tr, a, b = d.read_textgrid(src, tier_id, fill)
                 return {"t": [[tok, frac_str(s), frac_str(e)] for tok, s, e in tr],
                         "xmin": frac_str(a), "xmax": frac_str(b)}
             return go
@@ -1164,8 +1532,12 @@ class C11(PropertyCheck):
 
     def impl_textgrid(self, case):
         d = data()
-        t = [(tok, fl(s), fl(e)) for tok, s, e in case["t"]]
-        kw = {"tier_name": case["tier_name"], "precision": case["precision"]}
+        tk = num_of(case, "time")
+        t = [(tok, present(s, tk), present(e, tk)) for tok, s, e in case["t"]]
+        prec = present(case["precision"], num_of(case, "precision") or "int")
+        tier_id = case["tier_id"] if isinstance(case["tier_id"], str) else \
+            present(case["tier_id"], num_of(case, "tier_id") or "int")
+        kw = {"tier_name": case["tier_name"], "precision": prec}
         import pydrobert.torch.config as config
         deft = {"tier_name": config.DEFT_TEXTGRID_TIER_NAME, "precision": config.DEFT_FLOAT_PRINT_PRECISION,
                 "tier_id": config.DEFT_TEXTGRID_TIER_ID}
@@ -1183,14 +1555,14 @@ class C11(PropertyCheck):
             kw["point_tier"] = case["point_tier"]
         for k in ("start_time", "end_time"):
             if case[k] is not None:
-                kw[k] = fl(case[k])
+                kw[k] = present(case[k], tk)
         write = lambda tgt: d.write_textgrid(t, tgt, **kw)
         (e1, b1), (e2, b2), path = write_both(write, "tg")
         obs = {"write_path": e1 or "ok", "write_file": e2 or "ok", "write_same": (e1, b1) == (e2, b2)}
         # the same call with every option positional (the order of the signature)
         (e3, b3), (e4, b4), _ = write_both(
             lambda tgt: d.write_textgrid(t, tgt, kw.get("start_time"), kw.get("end_time"), case["tier_name"],
-                                         kw.get("point_tier"), case["precision"]), "tgpos")
+                                         kw.get("point_tier"), prec), "tgpos")
         obs["write_same_positional"] = (e3, b3) == (e4, b4) and (e4, b4) == (e2, b2)
         obs["positional_path_same_as_keyword_path"] = (e3, b3) == (e1, b1)
         if not obs["write_same"]:
@@ -1218,13 +1590,13 @@ class C11(PropertyCheck):
         def rd(fill, style="positional"):
             def go(src):
                 if style == "positional":
-                    tr, a, b = d.read_textgrid(src, case["tier_id"], fill)
+                    tr, a, b = d.read_textgrid(src, tier_id, fill)
                 elif style == "keyword":
-                    tr, a, b = d.read_textgrid(tg=src, fill_token=fill, tier_id=case["tier_id"])
+                    tr, a, b = d.read_textgrid(tg=src, fill_token=fill, tier_id=tier_id)
                 else:          # options that are at their default left out
                     kwr = {}
                     if case["tier_id"] != TG_DEFAULTS["tier_id"] or isinstance(case["tier_id"], str):
-                        kwr["tier_id"] = case["tier_id"]
+                        kwr["tier_id"] = tier_id
                     if fill is not None:
                         kwr["fill_token"] = fill
                     tr, a, b = d.read_textgrid(src, **kwr)
@@ -1248,29 +1620,41 @@ class C11(PropertyCheck):
     def impl_frames(self, case):
         import torch
         d = data()
-        t = [x if not isinstance(x, list) else (x[0], fl(x[1]), fl(x[2])) for x in case["t"]]
-        if case["f"] is None:
-            t = [x if not isinstance(x, tuple) else (x[0], int(x[1]), int(x[2])) for x in t]
-        t2i = None if case.get("token2id") is None else {k: v for k, v in case["token2id"]}
+        tk, sk, ik = num_of(case, "time"), num_of(case, "shift"), num_of(case, "id")
+        # an id (a token that is its own id, a value of token2id, an integer unk) as another integer type
+        pid_ = (lambda v: v) if ik is None else (lambda v: present(v, ik) if isinstance(v, int) else v)
+        if case["f"] is None:      # frame indices: integers, by whatever type
+            t = [pid_(x) if not isinstance(x, list) else
+                 (pid_(x[0]), present(x[1], tk or "int"), present(x[2], tk or "int")) for x in case["t"]]
+        else:
+            t = [pid_(x) if not isinstance(x, list) else (pid_(x[0]), present(x[1], tk), present(x[2], tk))
+                 for x in case["t"]]
+        t2i = None if case.get("token2id") is None else {k: pid_(v) for k, v in case["token2id"]}
         i2t = None if case.get("id2token") is None else {k: v for k, v in case["id2token"]}
-        f = None if case["f"] is None else fl(case["f"])
-        if f is not None and case.get("f_int") and f == int(f):
-            f = int(f)
+        if case["f"] is None:
+            f = None
+        elif sk is not None:
+            f = present(case["f"], sk)
+        else:
+            f = fl(case["f"])
+            if case.get("f_int") and f == int(f):
+                f = int(f)
+        unk = pid_(case["unk"])
         try:
-            tok = d.transcript_to_token(t, t2i, f, case["unk"])
+            tok = d.transcript_to_token(t, t2i, f, unk)
         except (TypeError, ValueError, RuntimeError) as e:
             return {"rows": {"error": "badId"}, "exc": type(e).__name__}
         rows = [[int(v) for v in r] for r in tok.tolist()]
         back = d.token_to_transcript(tok, i2t, f)
         # ids only
-        tok1 = d.transcript_to_token(t, t2i, f, case["unk"], skip_frame_times=True)
+        tok1 = d.transcript_to_token(t, t2i, f, unk, skip_frame_times=True)
         back1 = d.token_to_transcript(tok1, i2t, f)
         back2 = d.token_to_transcript(tok1.unsqueeze(1), i2t, f)       # the documented (R, 1) shape
         # keyword spelling of every option
-        tokk = d.transcript_to_token(transcript=t, token2id=t2i, frame_shift_ms=f, unk=case["unk"], skip_frame_times=False)
+        tokk = d.transcript_to_token(transcript=t, token2id=t2i, frame_shift_ms=f, unk=unk, skip_frame_times=False)
         backk = d.token_to_transcript(ref=tok, id2token=i2t, frame_shift_ms=f)
         # options that are None / at their default left out altogether
-        kw1 = {k_: v_ for k_, v_ in (("token2id", t2i), ("frame_shift_ms", f), ("unk", case["unk"])) if v_ is not None}
+        kw1 = {k_: v_ for k_, v_ in (("token2id", t2i), ("frame_shift_ms", f), ("unk", unk)) if v_ is not None}
         tokm = d.transcript_to_token(t, **kw1)
         kw2 = {k_: v_ for k_, v_ in (("id2token", i2t), ("frame_shift_ms", f)) if v_ is not None}
         backm = d.token_to_transcript(tok, **kw2)
@@ -1370,7 +1754,10 @@ class C11(PropertyCheck):
                     out.append(f"write_ctm impl={impl['lines']} model={ml}")
                 return out
             exact = case.get("stream") != "tolerance"
-            if exact and model.get("text") is not None:
+            # (an integer / Decimal time prints "1" where a float prints "1.0": same records, other characters)
+            # (the fine stream: repr(float) switches to exponent notation below 1e-4, the model prints plain decimals)
+            if exact and model.get("text") is not None and num_of(case, "time") in NUM_TEXT_AS_FLOAT \
+                    and case.get("stream") != "fine":
                 # text layer: the very characters, and read_ctm on those characters
                 if impl["text"] != model["text"]:
                     out.append(f"ctm text impl={impl['text']!r} model={model['text']!r}")
@@ -1427,7 +1814,11 @@ class C11(PropertyCheck):
             if impl["rows"] != model["rows"]:
                 out.append(f"token rows impl={impl['rows']} model={model['rows']}")
             elif not isinstance(impl["rows"], dict):
-                if not self.back_eq(impl["back"], model["back"]):
+                # (a 0-dim tensor as frame shift makes token_to_transcript compute `frame * shift / 1000` in torch's
+                # default float32: the times agree to float32 resolution, the property clause - within one frame
+                # shift - is judged exactly as ever)
+                tol = Fraction(1, 10 ** 6) if str(num_of(case, "shift")).startswith("torch.") else 0
+                if not self.back_eq(impl["back"], model["back"], tol):
                     out.append(f"token_to_transcript impl={impl['back']} model={model['back']}")
                 if impl["back_ids_only"] != model["back_plain"]:
                     out.append(f"token_to_transcript of the ids only impl={impl['back_ids_only']} "
@@ -1481,14 +1872,15 @@ class C11(PropertyCheck):
                    for x, y in zip(a["t"], b["t"]))
 
     @staticmethod
-    def back_eq(a, b):
+    def back_eq(a, b, tol=0):
         if len(a) != len(b):
             return False
+        near = lambda m, i: same_float(m, i) or abs(F(m) - F(i)) <= tol * max(1, abs(F(m)))
         for x, y in zip(a, b):
             if isinstance(x, list) != isinstance(y, list):
                 return False
             if isinstance(x, list):
-                if x[0] != y[0] or not same_float(y[1], x[1]) or not same_float(y[2], x[2]):
+                if x[0] != y[0] or not near(y[1], x[1]) or not near(y[2], x[2]):
                     return False
             elif x != y:
                 return False
@@ -1571,9 +1963,15 @@ class C11(PropertyCheck):
             if model is None or not model.get("in_domain") or model.get("spec") is None or not model.get("fields_ok"):
                 return fails
             exact = case.get("stream") != "tolerance"
+            if impl.get("write_file") != "ok":
+                fails.append((f"write_ctm raised {impl.get('write_file')} on expressible transcripts "
+                              f"{framework.short(case['ts'])}{self.num_note(case)}", "C11.ctm.write_error"))
+                return fails
             if not self.ts_eq(impl.get("read"), model["spec"], exact):
-                fails.append((f"ctm round trip: expected {framework.short(model['spec'])} read "
-                              f"{framework.short(impl.get('read'))}", "C11.ctm.roundtrip"))
+                fails.append((f"ctm round trip{self.num_note(case)}: expected {framework.short(model['spec'])} read "
+                              f"{framework.short(impl.get('read'))}"
+                              + (f"; the file holds {impl.get('text')!r}" if isinstance(impl.get("read"), dict) else ""),
+                              "C11.ctm.roundtrip"))
             for how in ("text", "raw"):
                 got = (impl.get("read_crlf") or {}).get(how)
                 if not self.ts_eq(got, model["spec"], exact):
@@ -1582,12 +1980,17 @@ class C11(PropertyCheck):
         elif k == "ctm_text":
             fails.extend(self.pred_ctm_text(case, impl))
         elif k == "tg_doc":
-            fails.extend(self.pred_tg_doc(case, impl))
+            fails.extend(self.pred_tg_doc(case, impl, model))
         elif k == "textgrid":
             fails.extend(self.pred_textgrid(case, impl, model))
         elif k == "frames":
             fails.extend(self.pred_frames(case, impl, model))
         return fails
+
+    @staticmethod
+    def num_note(case):
+        n = case.get("num")
+        return "" if not n else " [numbers handed over as " + ", ".join(f"{k}: {v}" for k, v in sorted(n.items())) + "]"
 
     @staticmethod
     def round_half_even(x, p):
@@ -1601,7 +2004,7 @@ class C11(PropertyCheck):
             return fl_ + 1
         return fl_ if fl_ % 2 == 0 else fl_ + 1
 
-    def tier_clauses(self, written, read, read_fill, fill, p, point, bounds, sig_prefix):
+    def tier_clauses(self, written, read, read_fill, fill, p, point, bounds, sig_prefix, lean=None):
         """The clauses on one tier: `written` entries [(tok, s, e)] (exact), what came back without and with
         a fill token, the precision, whether it is a point tier, the tier bounds that were written."""
         half = Fraction(1, 2 * 10 ** p)
@@ -1645,6 +2048,12 @@ class C11(PropertyCheck):
                 prev = F(e)
             if prev < F(read["xmax"]):
                 expf.append([fill, str(prev), str(F(read["xmax"]))])
+            # the oracle is the Lean spec: `specFill` on what the model reads without a fill token. Wherever model
+            # and implementation read the same tier, the rule above must be that function
+            if lean is not None and lean[0] is not None and lean[1] is not None and self.tg_eq(read, lean[0]):
+                if len(lean[1]) != len(expf) or not all(x[0] == y[0] and same_float(y[1], x[1]) and
+                                                        same_float(y[2], x[2]) for x, y in zip(expf, lean[1])):
+                    raise AssertionError(f"harness fill rule {expf} != Lean specFill {lean[1]}")
             have = [[tok, str(F(s)), str(F(e))] for tok, s, e in read_fill["t"]]
             if have != expf:
                 show = lambda l: [(a, float(F(b)), float(F(c))) for a, b, c in l]
@@ -1668,7 +2077,10 @@ class C11(PropertyCheck):
                          f"{lo} to {hi}: expected ValueError, got {impl.get('write_file')}", "C11.textgrid.bounds_check")]
             return []
         if isinstance(impl.get("lines"), dict):
-            return []
+            # a non-empty transcript of printable labels with admissible bounds is expressible: it must be written
+            return [(f"write_textgrid raised {impl['lines'].get('error')} on {framework.short(t)} with start_time="
+                     f"{case['start_time']}, end_time={case['end_time']}, precision={case['precision']}, point_tier="
+                     f"{case['point_tier']}{self.num_note(case)}", "C11.textgrid.write_error")]
         fails = []
         for kind, same in (impl.get("other_sequences_same") or {}).items():
             if same is not True:
@@ -1718,8 +2130,11 @@ class C11(PropertyCheck):
                           f" at precision {p}: expected {'a point' if want_point else 'an interval'} tier, file holds "
                           f"{impl['lines'][6]}", "C11.textgrid.tier_type"))
         written = [(x[0], s, e) for x, s, e in zip(t, starts, ends)]
+        lean = None
+        if model and isinstance(model.get("spec"), dict) and isinstance(model.get("read_nofill"), dict):
+            lean = (model["read_nofill"], model["spec"].get("fill"))
         fails.extend(self.tier_clauses(written, r, impl["read"], case["fill"], p, point,
-                                       (min(starts), max(ends)), "C11.textgrid"))
+                                       (min(starts), max(ends)), "C11.textgrid", lean))
         if impl.get("read_styles_same") is False:
             fails.append(("read_textgrid: options given by keyword / defaults left out give another result than "
                           "positionally", "C11.textgrid.call_style"))
@@ -1734,7 +2149,7 @@ class C11(PropertyCheck):
                               f"!= {framework.short(impl['read'])}", "C11.textgrid.crlf"))
         return fails
 
-    def pred_tg_doc(self, case, impl):
+    def pred_tg_doc(self, case, impl, model=None):
         tiers, tid = case["tiers"], case["tier_id"]
         n = len(tiers)
         fails = []
@@ -1757,8 +2172,11 @@ class C11(PropertyCheck):
             return [(f"tier_id={tid!r} on tiers {[t['name'] for t in tiers]} ({case['layout']} layout): "
                      f"read_textgrid raised {r['error']}", "C11.textgrid.tiers")]
         written = [(x[0], F(x[1]), F(x[2])) for x in sel["entries"]]
+        lean = None
+        if model and isinstance(model.get("read_nofill"), dict):
+            lean = (model["read_nofill"], model.get("fill_spec"))
         fails.extend(self.tier_clauses(written, r, impl["read"], case["fill"], case["precision"], sel["point"],
-                                       (F(sel["tmin"]), F(sel["tmax"])), "C11.textgrid.tiers"))
+                                       (F(sel["tmin"]), F(sel["tmax"])), "C11.textgrid.tiers", lean))
         d0 = impl.get("read_default")
         if d0 is not None and "error" not in d0 and [x[0] for x in d0["t"]] != [x[0] for x in tiers[0]["entries"]]:
             fails.append((f"read_textgrid(file) with the defaults returns {[x[0] for x in d0['t']]}, the first tier "
@@ -1822,7 +2240,14 @@ class C11(PropertyCheck):
         return fails
 
     def pred_frames(self, case, impl, model):
-        if isinstance(impl.get("rows"), dict) or case.get("malformed"):
+        if case.get("malformed"):
+            return []
+        if isinstance(impl.get("rows"), dict):
+            # refused although every id is an integer (the model, which follows the documented id rule, has rows)
+            if case.get("stream") != "oracle" and model and isinstance(model.get("rows"), list):
+                return [(f"transcript_to_token raised {impl.get('exc')} on {framework.short(case['t'])} with "
+                         f"frame_shift_ms={case['f']}, unk={case.get('unk')!r}{self.num_note(case)}; documented result "
+                         f"{framework.short(model['rows'])}", "C11.frames.error")]
             return []
         t = case["t"]
         t2i, i2t = case.get("token2id"), case.get("id2token")
@@ -1907,9 +2332,28 @@ class C11(PropertyCheck):
             return len(case["tiers"]) >= 2
         return True
 
+    def gap_tags(self, entries, lo, hi, p, prefix):
+        """where the FILE (times at precision p) has an unlabelled stretch of less than a millisecond"""
+        out = set()
+        unit = Fraction(1, 10 ** p)
+        ents = sorted(([self.round_half_even(a, p), self.round_half_even(b, p)] for _, a, b in entries),
+                      key=lambda x: x[0])
+        prev, where = self.round_half_even(lo, p), "leading"
+        for a, b in ents + [[self.round_half_even(hi, p), None]]:
+            if b is None:
+                where = "trailing"
+            if prev < a and (a - prev) * unit < Fraction(1, 1000):
+                out.add(f"{prefix}.gap_below_1ms={where}")
+                if a - prev == 1:
+                    out.add(f"{prefix}.gap_of_one_unit_of_the_last_digit")
+            prev, where = b, "internal"
+        return sorted(out)
+
     def tags(self, case, impl):
         k = case["kind"]
         t = [f"kind={k}"]
+        for role, kind in sorted((case.get("num") or {}).items()):
+            t.append(f"num.{k}.{role}={kind}")
         if case.get("malformed"):
             t.append(f"malformed={k}.{case['malformed']}")
         if case.get("stream"):
@@ -1967,6 +2411,11 @@ class C11(PropertyCheck):
                 t.append("tg_doc.tier_id=empty_name")
             if any(F(x["tmin"]) == 0 for x in case["tiers"]):
                 t.append("tg_doc.tier_starts_at_0")
+            t.append(f"tg_doc.precision={case['precision']}")
+            if case["fill"] is not None:
+                for x in case["tiers"]:
+                    t.extend(self.gap_tags(x["entries"], x["tmin"], x["tmax"], case["precision"], "tg_doc"))
+                t[:] = list(dict.fromkeys(t))
             if len({x["name"] for x in case["tiers"]}) < len(case["tiers"]):
                 t.append("tg_doc.duplicate_names")
             if isinstance(impl, dict) and isinstance(impl.get("read"), dict) and "error" in impl["read"]:
@@ -1986,6 +2435,9 @@ class C11(PropertyCheck):
                         t.append(f"tg.falsy={o_}:{v_!r}")
             if case["t"] and all(F(x[1]) != F(x[2]) and F(x[2]) - F(x[1]) < Fraction(1, 1000) for x in case["t"]):
                 t.append("tg.all_segments_below_1ms")
+            if case["t"] and case["fill"] is not None:
+                t.extend(self.gap_tags(case["t"], min(F(x[1]) for x in case["t"]), max(F(x[2]) for x in case["t"]),
+                                       case["precision"], "tg"))
             if any(x[0] == "" for x in case["t"]):
                 t.append("tg.empty_label")
             if case["t"] and min(F(x[1]) for x in case["t"]) == 0:
@@ -2029,6 +2481,8 @@ class C11(PropertyCheck):
     # ------------------------------------------------------------------ shrinking
     def shrink(self, case):
         k = case["kind"]
+        for role in sorted(case.get("num") or {}):       # the number as a plain Python float / int again
+            yield dict(case, num={r_: v_ for r_, v_ in case["num"].items() if r_ != role})
         if k == "trn":
             utts = case["utts"]
             for i in range(len(utts)):
@@ -2123,6 +2577,21 @@ class C11(PropertyCheck):
 
     # ------------------------------------------------------------------ real worker processes (thorough)
     def extra_checks(self, rng, tier, report):
+        # every (role, numeric type) on one fixed input: what the tree under test accepts. Recorded; a pair inside
+        # NUM_DOMAIN (= accepted by the unmodified tree) that no longer round-trips is a failure, pairs outside are
+        # not judged
+        table = numeric_sweep()
+        report["extra"]["numeric_types"] = {
+            role: {"accepted": [k_ for k_, v_ in row.items() if v_ == "ok"],
+                   "outside_the_domain": {k_: v_ for k_, v_ in row.items() if v_ != "ok"}}
+            for role, row in table.items()}
+        for role, row in table.items():
+            for kind in NUM_DOMAIN[role]:
+                if row[kind] != "ok":
+                    report["failures"].append(Failure(
+                        {"kind": "numeric_sweep", "role": role, "type": kind},
+                        f"{role} handed over as {kind} (accepted by the unmodified tree): {row[kind]}",
+                        f"C11.numeric_type.{role}"))
         if tier == "quick":
             report["extra"]["real_pools"] = "not run in the quick tier (pool replaced by an in-process ordered imap)"
             return
